@@ -124,7 +124,8 @@ def handle : List String → Option String
       let norms := s2.pairs.map (fun p => norm p.residue)
       pure s!"{if restart then 1 else 0} {s2.basis.length} {s2.info.code} {s2.niter} {returnValue c s2} {s2.conv.length} {joinSp (s2.conv.map (fun b => if b then "1" else "0"))} {spanok} {if eigok then 1 else 0} | {joinSp (norms.map fbits)} | {joinSp (s2.opBasis.map showFloats)}"
   | "recall" :: n :: nev :: mx :: ini :: co :: rule :: maxit :: tol :: pinfo :: pniter :: mb :: rest => do
-      -- a call with maxit ∈ {0, 1} on a USED solver object: `computeWithGuess` starts from the state the previous call left behind
+      -- a call with maxit ∈ {0, 1} on a USED solver object: `computeWithGuess` is given the state the previous call left behind; its prologue
+      -- (`resetResults`, `initializeSearchSpace`, `niter := 0`: /repo 6587027) overwrites every member, so the answer does not depend on it
       let n ← parseNat? n; let nev ← parseNat? nev; let mx ← parseNat? mx; let ini ← parseNat? ini; let co ← parseNat? co
       let rule ← parseInt? rule; let maxit ← parseNat? maxit; let tol ← ofBits? tol; let pinfo ← parseNat? pinfo; let pniter ← parseNat? pniter
       let mb ← parseNat? mb
